@@ -4,6 +4,7 @@ import (
 	"bufio"
 	"encoding/json"
 	"fmt"
+	"go.flow.arcalot.io/pluginsdk/schema"
 	"os"
 	"path/filepath"
 	"strings"
@@ -143,6 +144,12 @@ func schemaOps(seed int64, n int, outDir string, streams string, replay string) 
 				groupDupKeys(s, g)
 			case "structs":
 				groupStructs(s, g)
+			case "rules":
+				groupRules(s, g)
+			case "typed":
+				groupTyped(s, g)
+			case "rebuilt":
+				groupRebuilt(s, g)
 			}
 		}
 	}
@@ -228,6 +235,70 @@ func chain(s *sink, t *hx.Ty, r *hx.Val, note string) {
 	if s3.R != "ok" || hx.Canon(s3.V) != hx.Canon(sres.V) {
 		s.finding(Finding{Prop: "C01", What: "Serialize after CBOR round trip differs", Cases: []int{id2, id6}, Schema: t, Input: r, Detail: []string{sres.JSON(), s3.JSON()}})
 	}
+	chainRebuilt(s, t, r, res, id0)
+}
+
+// chainRebuilt: the same round trip on a schema REBUILT from its own description by the meta-schema
+// (DescribeScope().Unserialize + ApplySelf), whose lazily filled caches are cold: the very first
+// operation on such an instance must behave like every later one and like the constructor-built
+// schema. Direct evaluation on the implementation (the model has one behaviour per schema).
+func chainRebuilt(s *sink, t *hx.Ty, r *hx.Val, want hx.Result, id0 int) {
+	if t.T != "scope" {
+		return
+	}
+	var sc *schema.ScopeSchema
+	g := hx.Guard(func() hx.Result {
+		orig, ok := t.Build().(*schema.ScopeSchema)
+		if !ok {
+			return hx.Result{R: "err"}
+		}
+		d, err := orig.SelfSerialize()
+		if err != nil {
+			return hx.Result{R: "err"} // not describable (known findings D26/D27 and friends): C09's subject
+		}
+		x, err := schema.DescribeScope().Unserialize(d)
+		if err != nil {
+			return hx.Result{R: "err"}
+		}
+		sc = x.(*schema.ScopeSchema)
+		sc.ApplySelf()
+		return hx.Result{R: "ok"}
+	})
+	if g.R != "ok" || sc == nil {
+		s.stats["rebuilt:skipped"]++
+		return
+	}
+	s.stats["rebuilt:run"]++
+	var u any
+	first := hx.Guard(func() hx.Result { rr, o := hx.RunOpRaw("U", sc, r.ToGo()); u = o; return rr })
+	if first.R != want.R || (want.R == "ok" && hx.Canon(first.V) != hx.Canon(want.V)) {
+		s.finding(Finding{Prop: "C01", What: "the first Unserialize on a schema rebuilt from its description differs from the constructor-built schema",
+			Cases: []int{id0}, Schema: t, Input: r, Detail: []string{"constructor-built: " + want.JSON(), "rebuilt, first call: " + first.JSON()}})
+		return
+	}
+	if first.R != "ok" {
+		return
+	}
+	res := hx.Guard(func() hx.Result {
+		if err := sc.Validate(u); err != nil {
+			return hx.Result{R: "err", Msg: "result of Unserialize fails Validate: " + err.Error()}
+		}
+		w, err := sc.Serialize(u)
+		if err != nil {
+			return hx.Result{R: "err", Msg: "result of Unserialize fails Serialize: " + err.Error()}
+		}
+		u2, err := sc.Unserialize(w)
+		if err != nil {
+			return hx.Result{R: "err", Msg: "serialized form is rejected: " + err.Error()}
+		}
+		if hx.Canon(hx.Enc(u2)) != hx.Canon(hx.Enc(u)) {
+			return hx.Result{R: "err", Msg: "Unserialize(Serialize(v)) differs from v"}
+		}
+		return hx.Result{R: "ok"}
+	})
+	if res.R != "ok" {
+		s.finding(Finding{Prop: "C01", What: "schema rebuilt from its description: " + res.Msg, Cases: []int{id0}, Schema: t, Input: r})
+	}
 }
 
 // groupRandom: a generated schema against grammar-free values, all four operations (C04).
@@ -262,4 +333,34 @@ func replayCases(s *sink, path string) {
 		}
 		s.emit(c.Op, c.Schema, c.V, nil, false, c.Cmp, c.Note)
 	}
+}
+
+// groupRebuilt: describable scopes (retry until SelfSerialize and the loader accept), the round-trip
+// chain on the constructor-built schema (with the model) and on a cold instance rebuilt from the
+// description (chainRebuilt). Inputs leave properties unset so that defaults are what is exercised.
+func groupRebuilt(s *sink, g *hx.Gen) {
+	var t *hx.Ty
+	ok := false
+	for attempt := 0; attempt < 40 && !ok; attempt++ {
+		t = g.Scope(0)
+		r := hx.Guard(func() hx.Result {
+			desc, err := t.Build().(*schema.ScopeSchema).SelfSerialize()
+			if err != nil {
+				return hx.Result{R: "err"}
+			}
+			if _, err := schema.UnserializeScope(desc); err != nil {
+				return hx.Result{R: "err"}
+			}
+			return hx.Result{R: "ok"}
+		})
+		ok = r.R == "ok"
+	}
+	if !ok {
+		s.stats["rebuilt:no-describable-scope"]++
+		return
+	}
+	for i := 0; i < 4; i++ {
+		chain(s, t, g.Value(t, hx.Env{}, 0), "rebuilt")
+	}
+	chain(s, t, hx.StrAny(), "rebuilt:empty")
 }
